@@ -13,7 +13,7 @@
   The facts about `RE.lang` that are needed (`lang ≤ allStrings` for the elements of `u`,
   `isFull x → x.lang = allStrings`) are explicit hypotheses here; Props/C16.lean supplies them.
 -/
-import SmtModel.Proofs.ReLang
+import SmtModel.Proofs.ReLangCore
 import SmtModel.Model.ReCons
 
 namespace Smt
@@ -39,14 +39,16 @@ theorem catLang_append (a b : List RE) : catLang (a ++ b) = catLang a * catLang 
 theorem catLang_singleton (x : RE) : catLang [x] = x.lang := by simp [catLang]
 
 /-- `flatten_concat` preserves the language -/
-theorem flattenConcat_catLang (e : RE) : catLang (flattenConcat e) = e.lang := by
-  fun_induction flattenConcat e with
-  | case1 => simp [catLang, lang]
-  | case2 x y ihx ihy => simp [catLang_append, ihx, ihy, lang]
-  | case3 r h1 h2 => simp [catLang]
-
-theorem nil_mem_allStrings : ([] : List ℕ) ∈ allStrings := by
-  intro c hc; cases hc
+theorem flattenConcat_catLang : ∀ (e : RE), catLang (flattenConcat e) = e.lang
+  | .epsilon => by simp [flattenConcat, catLang, lang]
+  | .concat x y => by
+      simp [flattenConcat, catLang_append, flattenConcat_catLang x, flattenConcat_catLang y, lang]
+  | .empty => by simp [flattenConcat, catLang]
+  | .range _ => by simp [flattenConcat, catLang]
+  | .loop _ _ => by simp [flattenConcat, catLang]
+  | .compl _ => by simp [flattenConcat, catLang]
+  | .union _ => by simp [flattenConcat, catLang]
+  | .inter _ => by simp [flattenConcat, catLang]
 
 theorem append_mem_allStrings {x y : List ℕ} (hx : x ∈ allStrings) (hy : y ∈ allStrings) :
     x ++ y ∈ allStrings := by
@@ -543,6 +545,27 @@ theorem findRigidMatchesRevAux_spec (u v : List RE) : ∀ (ps : List BasePattern
       · simp_all
       · exact e2 q hq hqr
 
+/-! ### `is_full` -/
+
+/-- `is_full` recognises exactly the term Σ* -/
+theorem isFull_eq_sigmaStar {x : RE} (h : x.isFull = true) : x = sigmaStar := by
+  cases x with
+  | loop r rng =>
+    simp only [isFull, Bool.and_eq_true] at h
+    obtain ⟨h1, h2⟩ := h
+    cases r with
+    | range s =>
+      simp only [isAllChars, CharSet.isAlphabet, Bool.and_eq_true, beq_iff_eq] at h2
+      simp only [LoopRange.isAll, Bool.and_eq_true, beq_iff_eq] at h1
+      obtain ⟨a, b⟩ := s
+      obtain ⟨c, d⟩ := rng
+      simp only at h1 h2
+      obtain ⟨rfl, rfl⟩ := h1
+      obtain ⟨rfl, rfl⟩ := h2
+      rfl
+    | _ => simp [isAllChars] at h2
+  | _ => simp [isFull] at h
+
 /-! ### flexible regions -/
 
 theorem flexibleMatch_sound {u' v' : List RE} (h : flexibleMatch u' v' = true) :
@@ -805,6 +828,271 @@ theorem concatInclusion_sound' {u v : List RE} (hu : ∀ x ∈ u, x.lang ≤ all
       have hb' : b = false := by rw [← a1]; simpa using hr
       subst hb'
       exact ciStep2_sound (ps := pat :: rest) hu hfull ⟨a1, a2⟩ ⟨t1, t2, t3⟩ h
+
+/-! ### the slices taken by `match_flexible_patterns` are always in bounds
+
+  `&u[p.start_match..p.end_match]` panics in the Rust if `start_match > end_match` or
+  `end_match > u.len()`; the model answers `false` at that place.  The lemmas below show that this
+  never happens for the pattern lists `concat_inclusion` produces, so the guard in
+  `matchFlexiblePatterns` is always true there. -/
+
+/-- rigid regions are in order -/
+def MatchOrder (p q : BasePattern) : Prop :=
+  p.isRigid = true → q.isRigid = true → p.stopMatch ≤ q.startMatch
+
+/-- a match region that is a valid slice of a sequence of length `n` -/
+def RegionOK (n : Nat) (p : BasePattern) : Prop := p.startMatch ≤ p.stopMatch ∧ p.stopMatch ≤ n
+
+theorem findRigidMatches_ordered (u v : List RE) : ∀ (ps : List BasePattern) (i : Nat)
+    {ps' : List BasePattern}, findRigidMatches u v i ps = some ps' → ps'.Pairwise MatchOrder := by
+  intro ps
+  induction ps with
+  | nil => intro i ps' h; simp [findRigidMatches] at h; subst h; exact List.Pairwise.nil
+  | cons p rest ih =>
+    intro i ps' h
+    simp only [findRigidMatches] at h
+    split at h
+    · split at h
+      · cases h
+      · split at h
+        · cases h
+        · rename_i j k hm
+          simp only [Option.map_eq_some_iff] at h
+          obtain ⟨r', hr', rfl⟩ := h
+          refine List.Pairwise.cons ?_ (ih k hr')
+          intro q hq _ hqr
+          exact ((findRigidMatches_spec u v rest k hr').2 q hq hqr).2
+    · rename_i hnr
+      simp only [Option.map_eq_some_iff] at h
+      obtain ⟨r', hr', rfl⟩ := h
+      refine List.Pairwise.cons ?_ (ih i hr')
+      intro q _ hp; exact absurd hp hnr
+
+theorem findRigidMatchesRevAux_ordered (u v : List RE) : ∀ (ps : List BasePattern) (i : Nat)
+    {ps' : List BasePattern}, i ≤ u.length → findRigidMatchesRevAux u v i ps = some ps' →
+    ps'.Pairwise (fun p q => MatchOrder q p) := by
+  intro ps
+  induction ps with
+  | nil => intro i ps' _ h; simp [findRigidMatchesRevAux] at h; subst h; exact List.Pairwise.nil
+  | cons p rest ih =>
+    intro i ps' hi h
+    simp only [findRigidMatchesRevAux] at h
+    split at h
+    · split at h
+      · cases h
+      · split at h
+        · cases h
+        · rename_i j k hm
+          simp only [Option.map_eq_some_iff] at h
+          obtain ⟨r', hr', rfl⟩ := h
+          obtain ⟨m1, m2, _⟩ := prevRigidMatch_sound hm
+          have hj : j ≤ u.length := by omega
+          refine List.Pairwise.cons ?_ (ih j hj hr')
+          intro q hq hqr _
+          exact ((findRigidMatchesRevAux_spec u v rest j hj hr').2 q hq hqr).2
+    · rename_i hnr
+      simp only [Option.map_eq_some_iff] at h
+      obtain ⟨r', hr', rfl⟩ := h
+      refine List.Pairwise.cons ?_ (ih i hi hr')
+      intro q _ _ hp; exact absurd hp hnr
+
+/-- with ordered, in-bounds rigid regions, every region after `set_flexible_regions` is a valid
+    slice -/
+theorem flex_regions_in_bounds {n : Nat} {ps : List BasePattern} (halt : FlexAlt ps) :
+    ∀ (prevEnd : Nat), prevEnd ≤ n →
+    (∀ q ∈ ps, q.isRigid = true → RegionOK n q ∧ prevEnd ≤ q.startMatch) →
+    ps.Pairwise MatchOrder →
+    ∀ p ∈ setFlexibleRegions n prevEnd ps, RegionOK n p := by
+  induction halt with
+  | single p hp =>
+    intro prevEnd hpe _ _ x hx
+    simp only [setFlexibleRegions, hp, Bool.false_eq_true, if_false, List.mem_singleton] at hx
+    subst hx
+    exact ⟨hpe, Nat.le_refl _⟩
+  | cons2 p q rest hp hq _ ih =>
+    intro prevEnd hpe hok hord x hx
+    obtain ⟨⟨q1, q2⟩, q3⟩ := hok q (by simp) hq
+    simp only [setFlexibleRegions, hp, hq, Bool.false_eq_true, if_false, if_true,
+      List.mem_cons] at hx
+    rcases hx with rfl | rfl | hx
+    · exact ⟨q3, by simp [BasePattern.setMatch]; omega⟩
+    · exact ⟨q1, q2⟩
+    · rw [List.pairwise_cons, List.pairwise_cons] at hord
+      obtain ⟨_, hqr, hrest⟩ := hord
+      refine ih q.stopMatch q2 ?_ hrest x hx
+      intro r hr hrr
+      exact ⟨(hok r (List.mem_cons_of_mem _ (List.mem_cons_of_mem _ hr)) hrr).1, hqr r hr hq hrr⟩
+
+theorem forward_regions_in_bounds {u v : List RE} {ps ps' : List BasePattern}
+    (halt : ps = [] ∨ FlexAlt ps) (hf : findRigidMatches u v 0 ps = some ps') :
+    ∀ p ∈ setFlexibleRegions u.length 0 ps', RegionOK u.length p := by
+  obtain ⟨e1, e2⟩ := findRigidMatches_spec u v ps 0 hf
+  rcases halt with rfl | halt
+  · have : ps' = [] := by simpa using e1
+    subst this; intro p hp; simp [setFlexibleRegions] at hp
+  · exact flex_regions_in_bounds (halt.of_core e1) 0 (Nat.zero_le _)
+      (fun q hq hr => ⟨⟨(e2 q hq hr).1.1, (e2 q hq hr).1.2.1⟩, Nat.zero_le _⟩)
+      (findRigidMatches_ordered u v ps 0 hf)
+
+theorem reverse_regions_in_bounds {u v : List RE} {ps ps' : List BasePattern}
+    (halt : ps = [] ∨ FlexAlt ps) (hf : findRigidMatchesRev u v ps = some ps') :
+    ∀ p ∈ setFlexibleRegions u.length 0 ps', RegionOK u.length p := by
+  simp only [findRigidMatchesRev, Option.map_eq_some_iff] at hf
+  obtain ⟨rs, hrs, rfl⟩ := hf
+  obtain ⟨e1, e2⟩ := findRigidMatchesRevAux_spec u v ps.reverse u.length (Nat.le_refl _) hrs
+  have e1' : rs.reverse.map BasePattern.core = ps.map BasePattern.core := by
+    rw [List.map_reverse, e1, List.map_reverse, List.reverse_reverse]
+  rcases halt with rfl | halt
+  · have : rs = [] := by simpa using e1
+    subst this; intro p hp; simp [setFlexibleRegions] at hp
+  · refine flex_regions_in_bounds (halt.of_core e1') 0 (Nat.zero_le _) ?_ ?_
+    · intro q hq hr
+      have := (e2 q (List.mem_reverse.1 hq) hr).1
+      exact ⟨⟨this.1, this.2.1⟩, Nat.zero_le _⟩
+    · rw [List.pairwise_reverse]
+      exact findRigidMatchesRevAux_ordered u v ps.reverse u.length (Nat.le_refl _) hrs
+
+/-! the arguments with which `concat_inclusion` runs its two passes -/
+
+/-- prefix step of `concat_inclusion` -/
+def ciStep1 (u v : List RE) : Option (List RE × List RE × List BasePattern) :=
+  match basePatterns v with
+  | pat :: rest =>
+    if pat.isRigid then
+      if rigidPrefixMatch u v pat then
+        some (u.drop pat.len, v.drop pat.len, shiftPatternStart rest pat.len)
+      else none
+    else some (u, v, basePatterns v)
+  | [] => some (u, v, basePatterns v)
+
+/-- suffix step of `concat_inclusion` -/
+def ciStep2Args (u v : List RE) (p : List BasePattern) :
+    Option (List RE × List RE × List BasePattern) :=
+  match p.getLast? with
+  | some pat =>
+    if pat.isRigid then
+      if rigidSuffixMatch u v pat then
+        some (u.take (u.length - pat.len), v.take (v.length - pat.len), p.dropLast)
+      else none
+    else some (u, v, p)
+  | none => some (u, v, p)
+
+/-- `(u, v, patterns)` as they are when `find_rigid_matches` is called; `none` = already `false` -/
+def ciArgs (u v : List RE) : Option (List RE × List RE × List BasePattern) :=
+  match ciStep1 u v with
+  | none => none
+  | some (u, v, p) => ciStep2Args u v p
+
+theorem ciStep2_eq (u v : List RE) (p : List BasePattern) :
+    ciStep2 u v p =
+      (match ciStep2Args u v p with
+      | none => false
+      | some (u, v, p) => ciCore u v p) := rfl
+
+theorem concatInclusion_eq_ciArgs (u v : List RE) :
+    concatInclusion u v =
+      (match ciArgs u v with
+      | none => false
+      | some (u, v, p) => ciCore u v p) := by
+  rw [concatInclusion_eq, ciArgs, ← ciStep1]
+  cases ciStep1 u v with
+  | none => rfl
+  | some t =>
+    obtain ⟨u1, v1, p1⟩ := t
+    exact ciStep2_eq u1 v1 p1
+
+theorem ciStep1_shape {u v u1 v1 : List RE} {p1 : List BasePattern}
+    (h : ciStep1 u v = some (u1, v1, p1)) : AltFrom false p1 ∧ Tiles v1.length 0 p1 := by
+  unfold ciStep1 at h
+  have ht := basePatterns_tiles v
+  obtain ⟨b, halt⟩ := basePatterns_alt v
+  cases hb : basePatterns v with
+  | nil =>
+    rw [hb] at h ht
+    simp only [Option.some.injEq, Prod.mk.injEq] at h
+    obtain ⟨_, rfl, rfl⟩ := h
+    exact ⟨trivial, ht⟩
+  | cons pat rest =>
+    rw [hb] at h ht halt
+    simp only at h
+    obtain ⟨a1, a2⟩ := halt
+    obtain ⟨t1, t2, t3⟩ := ht
+    by_cases hr : pat.isRigid = true
+    · simp only [hr, if_true] at h
+      by_cases hp : rigidPrefixMatch u v pat = true
+      · simp only [hp, if_true, Option.some.injEq, Prod.mk.injEq] at h
+        obtain ⟨_, rfl, rfl⟩ := h
+        have hstop : pat.stop ≤ v.length := t3.le
+        have hlen : pat.len = pat.stop := by simp [BasePattern.len, t1]
+        refine ⟨?_, ?_⟩
+        · apply shift_alt
+          rw [← a1, hr] at a2; simpa using a2
+        · have := shift_tiles (d := pat.len) (by omega) t3
+          rw [hlen] at this ⊢
+          simpa using this
+      · simp [hp] at h
+    · simp only [hr, Bool.false_eq_true, if_false, Option.some.injEq, Prod.mk.injEq] at h
+      obtain ⟨_, rfl, rfl⟩ := h
+      have hb' : b = false := by rw [← a1]; simpa using hr
+      subst hb'
+      exact ⟨⟨a1, a2⟩, ⟨t1, t2, t3⟩⟩
+
+theorem ciStep2Args_shape {u v u2 v2 : List RE} {ps p2 : List BasePattern}
+    (halt : AltFrom false ps) (ht : Tiles v.length 0 ps)
+    (h : ciStep2Args u v ps = some (u2, v2, p2)) :
+    (p2 = [] ∨ FlexAlt p2) ∧ Tiles v2.length 0 p2 := by
+  unfold ciStep2Args at h
+  cases hl : ps.getLast? with
+  | none =>
+    have : ps = [] := List.getLast?_eq_none_iff.1 hl
+    subst this
+    simp only [List.getLast?_nil, Option.some.injEq, Prod.mk.injEq] at h
+    obtain ⟨_, rfl, rfl⟩ := h
+    exact ⟨Or.inl rfl, ht⟩
+  | some pat =>
+    simp only [hl] at h
+    by_cases hr : pat.isRigid = true
+    · simp only [hr, if_true] at h
+      by_cases hs : rigidSuffixMatch u v pat = true
+      · simp only [hs, if_true, Option.some.injEq, Prod.mk.injEq] at h
+        obtain ⟨_, rfl, rfl⟩ := h
+        obtain ⟨l, rfl⟩ := List.getLast?_eq_some_iff.1 hl
+        obtain ⟨t1, t2, t3⟩ := tiles_snoc ht
+        have hlen : pat.len = v.length - pat.start := by simp [BasePattern.len, t3]
+        simp only [List.dropLast_concat]
+        refine ⟨?_, ?_⟩
+        · apply flexAlt_of_alt l (alt_snoc halt)
+          intro y hy
+          obtain ⟨l', rfl⟩ := List.getLast?_eq_some_iff.1 hy
+          have := alt_snoc2 (l := l') (y := y) (x := pat) (by simpa using halt)
+          rw [hr] at this
+          revert this
+          cases y.isRigid <;> simp
+        · have hv2 : (v.take (v.length - pat.len)).length = pat.start := by
+            simp [hlen]; omega
+          rw [hv2]; exact t1
+      · simp [hs] at h
+    · simp only [hr, Bool.false_eq_true, if_false, Option.some.injEq, Prod.mk.injEq] at h
+      obtain ⟨_, rfl, rfl⟩ := h
+      refine ⟨?_, ht⟩
+      apply flexAlt_of_alt _ halt
+      intro y hy
+      rw [hl] at hy
+      cases hy
+      simpa using hr
+
+/-- the pattern list on which `concat_inclusion` runs its passes is empty or alternates
+    flexible/rigid/…/flexible, and tiles the remaining `v` -/
+theorem ciArgs_shape {u v u' v' : List RE} {p : List BasePattern}
+    (h : ciArgs u v = some (u', v', p)) : (p = [] ∨ FlexAlt p) ∧ Tiles v'.length 0 p := by
+  unfold ciArgs at h
+  cases h1 : ciStep1 u v with
+  | none => rw [h1] at h; cases h
+  | some t =>
+    obtain ⟨u1, v1, p1⟩ := t
+    rw [h1] at h
+    obtain ⟨a, b⟩ := ciStep1_shape h1
+    exact ciStep2Args_shape a b h
 
 end RE
 end Smt
